@@ -13,13 +13,13 @@ CHECKS = {
             "boundaries named by the property (1x1, single list of 2^j, N = 2^t +- 1, block/level edges that reach "
             "Pi2Lev's medium and large cases, shared identifiers, zero-rich identifiers). Every stored keyword's "
             "result is compared with a deep copy of the plaintext taken before setup; any exception on a valid input "
-            "is a refutation. Inconclusive unless every scheme, class, boundary tag and _Search function was observed.",
+            "is a refutation. Half of the cases re-use the scheme object (and mostly the key) of an earlier case with the same configuration, share keywords with it and search the earlier index again afterwards; default-size workloads add Pi2Lev large case at B=b=64, SSE-1 with 2^16 cells and posting lists longer than 2^16. Inconclusive unless every scheme, class, boundary tag and _Search function was observed.",
             "Sampling of an infinite input space; valid-database definition as in the property; oracle in props/_search_engine.py.",
             "DESIGN.md §3 C01"),
     "C02": ("exploration", "same engine as C01 judged on absent keywords (random and adversarially close families)",
             "For every generated (scheme, configuration, database) twelve absent keywords are searched: random ones "
             "and close ones (prefix, suffix, +NUL, flipped last byte, doubled, upper-cased, a stored identifier used as "
-            "keyword). A non-empty result or any exception is a refutation.",
+            "keyword, keywords stored in an earlier database under the same key). A non-empty result or any exception is a refutation; so is an earlier index that answers differently after a later setup on the same object.",
             "Absent keywords are drawn from the stored keywords' domain; oracle is the constant 'empty'.",
             "DESIGN.md §3 C02"),
     "C03": ("exploration", "wire-boundary oracle: serialize/deserialize equality + byte-only server pipeline + key reload in a fresh scheme instance",
@@ -79,7 +79,7 @@ CHECKS = {
             "before step k' are combined with a server restart (none / before the first / before the third search); "
             "the bytes handed to the search callback are deserialized and compared with the JSON database (UTF-8 "
             "keywords, hex identifiers incl. leading-zero bytes). The frontend.client.commands layer is driven with "
-            "stdout captured in the hex/int/raw/utf8 formats, one workflow returns a > 1 MiB result, and the thorough "
+            "stdout captured in the hex/int/raw/utf8 formats, one workflow returns a > 1 MiB result and one a 300-element set, a reply the server sent that never reaches the callback is a violation, and the thorough "
             "tier repeats the workflow with real server/client processes and SIGKILL.",
             "Quick tier shares one event loop between client and server (they interact only through the websocket and files); 10 s harness watchdog, expiry = inconclusive.",
             "DESIGN.md §3 C09"),
@@ -98,13 +98,13 @@ CHECKS = {
             "5 (thorough), the complete workflow with every operation inserted at every position and every tail for all "
             "nine schemes, and random sequences of length 6..12 are executed; accept/refuse, the flags persisted in "
             "service_meta, SHA-256 snapshots of the service directory around refused operations, the key file's bytes "
-            "and end-of-workflow search results are compared with the model at every step.",
+            "and end-of-workflow search results are compared with the model at every step; the frontend.client.commands layer (aliases, printed outcomes) is driven with the same model.",
             "Prerequisite relation taken from the handlers / frontend/README.md; upload flags are re-derived from the server on connect.",
             "DESIGN.md §3 C11"),
     "C12": ("exploration", "harness-as-scheduler over raw websocket connections with the cleanup delay as a gated event; offline predicates M1-M4 over the step-stamped history",
             "Two connections with scripts of <= 2 requests: every interleaving of their open/request/close events for every "
-            "script pair, under three policies for releasing the server's cleanup delay (immediately, one event later, only "
-            "at the end); three connections: seeded random walks (thorough: every interleaving for <= 1 request each). "
+            "script pair, under four policies for releasing the server's delays (immediately, one event later, in virtual-time order one step late, only "
+            "at the end); three connections: every interleaving of two script triples plus seeded random walks (thorough: every interleaving for <= 1 request each). "
             "Reader tasks stamp each received message with the logical step; afterwards the history is checked: no reply "
             "to connection j while an earlier-opened connection is still open, a probe connection is accepted and told a "
             "state >= every acknowledged transition, its search is answered from the one acknowledged index.",
@@ -131,7 +131,7 @@ CHECKS = {
             "decrypt inverting encrypt; widths to 2100 bits (around multiples of the 160-bit digest, odd and even) are "
             "sampled; Luby-Rackoff is run on all 65 536 two-byte messages and on structured sample sets for 4..64 "
             "bytes; wrong key/message lengths must raise; and the PRP instances inside SSE-1/SSE-2 are hooked during "
-            "real setups so that the addresses they produce are observed to be collision-free and in range.",
+            "real setups so that the addresses they produce are observed to be collision-free and in range; one cipher object and one key are also used at many widths in descending / ascending / shuffled order.",
             "Keys are sampled (exhaustive per key, not over keys); trusts the set-based oracle in props/c15.py.",
             "DESIGN.md §3 C15"),
     "C16": ("exploration", "differential monitor against reference RFC 5246 P_hash / counter-mode expansion written in the harness",
